@@ -125,8 +125,16 @@ SYNTH = {
                      "    set ~\n"
                      "no * %global %logic=common.default_instead_undo\n"
                      "ntp server * %logic=common.default_instead_undo\n"),
+    # huawei: plain rules; used with an ACL in which two rules match one row and both own a child rule with the same
+    # text but different list-valued flags (the children rules of all matching ACL rules are merged per match)
+    "T4": ("huawei", "interface *\n"
+                     "    description ~\n"
+                     "    mtu *\n"
+                     "sysname *\n"),
 }
-SYNTH_ACL = {"T3": "ip access-list *\n    ~ %global\nntp server <srv>\nroute-map *\n    ~ %global\n"}
+SYNTH_ACL = {"T3": "ip access-list *\n    ~ %global\nntp server <srv>\nroute-map *\n    ~ %global\n",
+             "T4": "interface * %prio=1\n    description ~ %cant_delete=1\n    mtu *\n"
+                   "interface */Eth.*/\n    description ~ %cant_delete=0\n    mtu * %cant_delete=1\n"}
 SYNTH_JOBS = [
     {"id": "synth/T1/a", "text": "T1", "logic": "default_instead_undo", "add_comments": False,
      "old": [["feature a", []], ["feature b", []], ["logging host h1", []], ["mystery 1", [["inner", []]]],
@@ -148,6 +156,12 @@ SYNTH_JOBS = [
              ["stray row", []]],
      "new": [["ip access-list A", [["permit 2", []], ["permit 1", []]]], ["ntp server 2.2.2.2", []],
              ["route-map M", [["match a", []], ["set c", []]]]]},
+    {"id": "synth/T4/a", "text": "T4", "logic": "default", "add_comments": False, "acl": "T4",
+     "old": [["interface Eth1", [["description x", []], ["mtu 1500", []]]], ["sysname a", []]],
+     "new": [["interface Eth1", [["description y", []]]], ["sysname a", []]]},
+    {"id": "synth/T4/b", "text": "T4", "logic": "default", "add_comments": False, "acl": "T4",
+     "old": [["interface Vlanif10", [["description mgmt", []], ["mtu 9000", []]]], ["sysname a", []]],
+     "new": [["interface Vlanif10", []], ["sysname b", []]]},
     {"id": "synth/T3/b", "text": "T3", "logic": "default_instead_undo", "add_comments": False,
      "old": [["ip access-list B", [["permit 9", []]]], ["ntp server 3.3.3.3", []], ["no thing 1", []], ["stray row", []]],
      "new": [["route-map N", [["set z", []]]], ["stray row 2", []]]},
